@@ -1,14 +1,17 @@
 (* Wrap.v — executable model of the line wrapping MontePy applies to every formatted input:
-   montepy/mcnp_object.py: MCNP_Object.wrap_string_for_mcnp, which drives Python's
-   textwrap.TextWrapper(width, initial_indent, subsequent_indent = 5 blanks, drop_whitespace=False)
-   with its defaults break_long_words = break_on_hyphens = True.
+   montepy/mcnp_object.py: MCNP_Object.wrap_string_for_mcnp and MCNP_Object._wrap_line (commit 5ca937a), which drive
+   Python's textwrap.TextWrapper(width, initial_indent, subsequent_indent = 5 blanks, drop_whitespace=False)
+   with its defaults break_long_words = break_on_hyphens = expand_tabs = replace_whitespace = True.
 
-   Modelled here: TextWrapper._wrap_chunks and _handle_long_word (CPython 3.12), the blank-line
-   filter and per-line loop of wrap_string_for_mcnp, Message/Title truncation.
-   NOT modelled: TextWrapper._split (the chunking regular expression).  The chunks are an input;
-   [split_ws] below is the chunking of hyphen-free text (maximal runs of blanks / non-blanks) and the
-   correspondence checks on every case that the real chunks concatenate to the munged text and, for
-   text without '-', equal [split_ws].  No proofs in this file. *)
+   Modelled here: TextWrapper._munge_whitespace (str.expandtabs(8) + whitespace translation), TextWrapper._wrap_chunks
+   and _handle_long_word (CPython 3.12), montepy.utilities.is_comment, MCNP_Object._wrap_line (fit test, 'c' comment
+   lines, split at the first '$', comment appended / started on a short last data line / continued with "     $ "),
+   the blank-line filters and per-line loop of wrap_string_for_mcnp, Message/Title truncation.
+   NOT modelled: TextWrapper._split (the chunking regular expression).  The chunks of the line, of its data part and
+   of its comment part are inputs; the wire entry refuses chunk lists that do not concatenate to the munged text;
+   [split_ws] below is the chunking of hyphen-free text (maximal runs of blanks / non-blanks) and the correspondence
+   checks on every case that the real chunks of hyphen-free text equal [split_ws].  str.splitlines is done by the
+   caller.  Strings are sequences of latin-1 code points.  No proofs in this file. *)
 From Coq Require Import List String Ascii Arith Bool Lia.
 From MPV Require Import Model.Wire.
 Import ListNotations.
@@ -131,19 +134,156 @@ Fixpoint all_blank (s : string) : bool :=
 
 Definition blanks (n : nat) : string := String.concat "" (repeat " " n).
 
-(* wrap_string_for_mcnp: [lines] are the splitlines() of the formatted text, each given by its chunks;
-   blank-only lines are skipped; every line is wrapped on its own *)
-Fixpoint wrap_lines (W : nat) (cont : nat) (is_first : bool) (lines : list (list string))
-  : option (list string) :=
+(* ---- Python string predicates (latin-1 code points) ---- *)
+(* str.isspace *)
+Definition is_pyspace (a : ascii) : bool :=
+  let n := nat_of_ascii a in
+  orb (andb (Nat.leb 9 n) (Nat.leb n 13))
+      (orb (andb (Nat.leb 28 n) (Nat.leb n 32)) (orb (Nat.eqb n 133) (Nat.eqb n 160))).
+Fixpoint all_pyspace (s : string) : bool :=          (* not s.strip() *)
+  match s with
+  | EmptyString => true
+  | String a r => andb (is_pyspace a) (all_pyspace r)
+  end.
+Fixpoint lstrip_py (s : string) : string :=
+  match s with
+  | EmptyString => ""
+  | String a r => if is_pyspace a then lstrip_py r else s
+  end.
+(* s.strip() (as a set of characters kept: only used to compare with "C") *)
+Fixpoint rstrip_py (s : string) : string :=
+  match s with
+  | EmptyString => ""
+  | String a r => let r' := rstrip_py r in
+                  if andb (is_pyspace a) (String.eqb r' "") then "" else String a r'
+  end.
+Definition strip_py (s : string) : string := rstrip_py (lstrip_py s).
+
+Definition tab_char : ascii := ascii_of_nat 9.
+Definition nl_char : ascii := ascii_of_nat 10.
+Definition cr_char : ascii := ascii_of_nat 13.
+
+(* str.expandtabs(8) *)
+Fixpoint expandtabs_aux (s : string) (col : nat) : string :=
+  match s with
+  | EmptyString => ""
+  | String a r =>
+      if Ascii.eqb a tab_char then
+        let n := 8 - Nat.modulo col 8 in blanks n ++ expandtabs_aux r (col + n)
+      else if orb (Ascii.eqb a nl_char) (Ascii.eqb a cr_char) then String a (expandtabs_aux r 0)
+      else String a (expandtabs_aux r (S col))
+  end.
+(* TextWrapper.unicode_whitespace_trans: "\t\n\x0b\x0c\r " -> " " *)
+Definition is_munged_ws (a : ascii) : bool :=
+  let n := nat_of_ascii a in orb (andb (Nat.leb 9 n) (Nat.leb n 13)) (Nat.eqb n 32).
+Fixpoint translate_ws (s : string) : string :=
+  match s with
+  | EmptyString => ""
+  | String a r => String (if is_munged_ws a then " "%char else a) (translate_ws r)
+  end.
+(* TextWrapper._munge_whitespace *)
+Definition munge (s : string) : string := translate_ws (expandtabs_aux s 0).
+
+(* ---- montepy.utilities.is_comment ---- *)
+Definition is_c (a : ascii) : bool := orb (Ascii.eqb a "c"%char) (Ascii.eqb a "C"%char).
+(* s.upper().startswith("C ") : only c/C upper-case to "C" and only " " to " " *)
+Definition starts_c_blank (s : string) : bool :=
+  match s with
+  | String a (String b _) => andb (is_c a) (is_blank b)
+  | _ => false
+  end.
+Definition is_single_c (s : string) : bool :=        (* s.upper() == "C" *)
+  match s with
+  | String a EmptyString => is_c a
+  | _ => false
+  end.
+Fixpoint has_char (c : ascii) (s : string) : bool :=
+  match s with
+  | EmptyString => false
+  | String a r => orb (Ascii.eqb a c) (has_char c r)
+  end.
+Definition is_comment (line : string) : bool :=
+  let upper_start := take 6 line in                  (* line[0 : BLANK_SPACE_CONTINUE + 1] *)
+  let non_blank_comment := andb (negb (String.eqb upper_start "")) (starts_c_blank (lstrip_py line)) in
+  if non_blank_comment then true
+  else if has_char nl_char line then is_single_c (strip_py upper_start)
+  else is_single_c upper_start.
+
+(* ---- line.split("$", 1) ---- *)
+Definition dollar : ascii := "$"%char.
+Fixpoint before_dollar (s : string) : string :=
+  match s with
+  | EmptyString => ""
+  | String a r => if Ascii.eqb a dollar then "" else String a (before_dollar r)
+  end.
+(* "$" + the text after the first '$'; "" when there is no '$' *)
+Fixpoint from_dollar (s : string) : string :=
+  match s with
+  | EmptyString => ""
+  | String a r => if Ascii.eqb a dollar then s else from_dollar r
+  end.
+
+(* ---- MCNP_Object._wrap_line ---- *)
+Inductive wres : Type :=
+| WOk (ls : list string)
+| WFuel                      (* the model ran out of fuel (never: C10_line_total) *)
+| WIndexError.               (* ret[-1] of an empty list *)
+
+Definition of_opt (o : option (list string)) : wres :=
+  match o with Some ls => WOk ls | None => WFuel end.
+Definition wapp (pre : list string) (o : option (list string)) : wres :=
+  match o with Some ls => WOk (List.app pre ls) | None => WFuel end.
+
+(* one source line with the chunks TextWrapper._split gives for the line, for its data part (before the first
+   '$') and for its comment part ('$' and what follows) *)
+Record src_line : Type := SrcLine {
+  l_text : string;
+  l_chunks : list string;
+  l_data_chunks : list string;
+  l_comment_chunks : list string
+}.
+
+Definition comment_si : string := "c ".
+Definition dollar_si (si : string) : string := si ++ "$ ".
+
+Definition wrap_line (W : nat) (ii si : string) (l : src_line) : wres :=
+  let line := l_text l in
+  if Nat.leb (slen ii + slen line) W then of_opt (wrap_chunks W ii si (l_chunks l))
+  else if is_comment line then of_opt (wrap_chunks W ii comment_si (l_chunks l))
+  else if negb (has_char dollar line) then of_opt (wrap_chunks W ii si (l_chunks l))
+  else
+    let data := before_dollar line in
+    let comment := from_dollar line in
+    if negb (all_pyspace data) then
+      match wrap_chunks W ii si (l_data_chunks l) with
+      | None => WFuel
+      | Some [] => WIndexError
+      | Some ret =>
+          let lst := List.last ret "" in
+          if Nat.leb (slen lst + slen comment) W then WOk (List.app (removelast ret) [lst ++ comment])
+          else if Nat.ltb (slen lst) (Nat.div W 2)
+          then wapp (removelast ret) (wrap_chunks W lst (dollar_si si) (l_comment_chunks l))
+          else wapp ret (wrap_chunks W si (dollar_si si) (l_comment_chunks l))
+      end
+    else of_opt (wrap_chunks W (ii ++ data) (dollar_si si) (l_comment_chunks l)).
+
+Definition keep_part (s : string) : bool := negb (all_pyspace s).      (* if part.strip() *)
+
+(* wrap_string_for_mcnp: [lines] are the splitlines() of the formatted text; blank-only lines are skipped; every
+   line is wrapped on its own; wrapped parts of only blanks are dropped *)
+Fixpoint wrap_lines (W : nat) (cont : nat) (is_first : bool) (lines : list src_line) : wres :=
   match lines with
-  | [] => Some []
+  | [] => WOk []
   | l :: r =>
-      if all_blank (String.concat "" l) then wrap_lines W cont is_first r
+      if all_pyspace (l_text l) then wrap_lines W cont is_first r
       else
-        match wrap_chunks W (if is_first then "" else blanks cont) (blanks cont) l,
-              wrap_lines W cont is_first r with
-        | Some a, Some b => Some (List.app (filter (fun x => negb (all_blank x)) a) b)   (* fix: blank-only wrapped lines are dropped *)
-        | _, _ => None
+        match wrap_line W (if is_first then "" else blanks cont) (blanks cont) l with
+        | WOk a =>
+            match wrap_lines W cont is_first r with
+            | WOk b => WOk (List.app (filter keep_part a) b)
+            | e => e
+            end
+        | e => e
         end
   end.
 
@@ -155,22 +295,48 @@ Definition message_lines (W : nat) (lines : list string) : list string :=
   | l0 :: r => ("MESSAGE: " ++ take (W - 10) l0) :: List.app (map (take (W - 1)) r) [""]
   end.
 
-(* ---- wire: "<W> <first:0|1> <cont> <hexchunk,hexchunk,...>/<...>/..."  ->  hex lines joined by ',' *)
+(* ---- wire ----
+   "<W> <first:0|1> <cont> <L>/<L>/..."  ->  hex lines joined by ','   ("-" = no line)
+   L = "<hex line>:<chunks of the line>:<chunks of the data part>:<chunks of the comment part>",
+   chunks = hex,hex,... or "-"; "x" in place of <hex line> stands for the empty line.
+   A chunk list that does not concatenate to the munged text is refused ("chunks:err"). *)
+Definition parse_chunks (s : string) : list string :=
+  if String.eqb s "-" then [] else map hex_decode (split_on ","%char s).
+Definition parse_src_line (s : string) : option src_line :=
+  match split_on ":"%char s with
+  | [t; a; b; c] =>
+      let line := if String.eqb t "x" then "" else hex_decode t in
+      let l := SrcLine line (parse_chunks a) (parse_chunks b) (parse_chunks c) in
+      let ok_line := String.eqb (String.concat "" (l_chunks l)) (munge line) in
+      let ok_parts :=
+        if has_char dollar line
+        then andb (String.eqb (String.concat "" (l_data_chunks l)) (munge (before_dollar line)))
+                  (String.eqb (String.concat "" (l_comment_chunks l)) (munge (from_dollar line)))
+        else true in
+      if andb ok_line ok_parts then Some l else None
+  | _ => None
+  end.
+Definition show_wres (r : wres) : string :=
+  match r with
+  | WOk out => show_list hex_encode out
+  | WFuel => "outoffuel"
+  | WIndexError => "IndexError"
+  end.
 Definition run_Wrap (req : string) : string :=
   match words req with
   | [w; f; c; ls] =>
       match parse_nat w, parse_nat c with
       | Some W, Some cont =>
-          let lines := map (fun l => if String.eqb l "-" then [] else map hex_decode (split_on ","%char l))
-                           (split_on "/"%char ls) in
-          match wrap_lines W cont (String.eqb f "1") lines with
-          | Some out => show_list hex_encode out
-          | None => "outoffuel"
+          match (if String.eqb ls "-" then Some [] else map_opt parse_src_line (split_on "/"%char ls)) with
+          | Some lines => show_wres (wrap_lines W cont (String.eqb f "1") lines)
+          | None => "chunks:err"
           end
       | _, _ => "parse:err"
       end
   | ["title"; w; t] =>
       match parse_nat w with Some W => hex_encode (title_line W (hex_decode t)) | None => "parse:err" end
   | ["splitws"; t] => show_list hex_encode (split_ws (hex_decode t))
+  | ["iscomment"; t] => if is_comment (if String.eqb t "x" then "" else hex_decode t) then "1" else "0"
+  | ["munge"; t] => hex_encode (munge (hex_decode t))
   | _ => "parse:err"
   end.
